@@ -295,10 +295,25 @@ class MoleculeSampler:
         fragname, target_node = random.choice(fragments[compl_bonding])
         # 5. add the new fragment and do some book-keeping
         correspondence = merge_graphs(molecule, self.fragment_dict[fragname])
-        molecule.add_edge(source_node,
-                          correspondence[target_node],
+        # as in the resolver a bond between two aromatic atoms is aromatic
+        # and the provisional hydrogen count of the bonded atoms is reduced
+        order = split_bonding_descriptor(bonding)[1]
+        new_edge = (source_node, correspondence[target_node])
+        if all(molecule.nodes[node].get('aromatic', False) for node in new_edge):
+            order = 1.5
+        molecule.add_edge(*new_edge,
                           bonding=(bonding, compl_bonding),
-                          order = split_bonding_descriptor(bonding)[1])
+                          order=order)
+        if self.all_atom:
+            for node in new_edge:
+                if 'hcount' not in molecule.nodes[node]:
+                    continue
+                hcount = molecule.nodes[node]['hcount']
+                if molecule.nodes[node].get('aromatic', False):
+                    hcount = max(0, hcount - 1.5)
+                else:
+                    hcount = max(0, hcount - 1)
+                molecule.nodes[node]['hcount'] = hcount
         molecule.nodes[source_node]['bonding'].remove(bonding)
         molecule.nodes[correspondence[target_node]]['bonding'].remove(compl_bonding)
 
